@@ -87,7 +87,7 @@ theorem pyInt_neg_digits {ds : List Char} (hne : ds ≠ []) (h : ∀ c ∈ ds, A
     have hc := asciiDigit_facts (h c (by simp))
     have hcs : ∀ x ∈ cs, AsciiDigit x := fun x hx => h x (by simp [hx])
     unfold pyInt?
-    rw [strip_of_trimmed htr]
+    rw [stripInt_of_trimmed htr]
     simp only [List.head?_cons, List.tail_cons, beq_self_eq_true, Bool.true_or, if_true]
     simp only [hc.1, digitsTail_digits cs hcs, Bool.and_self, if_true, filter_digits (c :: cs) h]
 
